@@ -412,4 +412,13 @@ def main_wrap(fn):
         print('MACHINERY-FAILURE: unexpected exception in the harness')
         traceback.print_exc()
         sys.exit(2)
+    except BaseException as ex:
+        # library code calling exit() (pncdump's exception handler does) must
+        # never end a check silently with status 0
+        import traceback
+        print('MACHINERY-FAILURE: %s escaped into the harness'
+              % type(ex).__name__)
+        traceback.print_exc()
+        sys.stdout.flush()
+        os._exit(2)
     sys.exit(rc)
